@@ -40,6 +40,11 @@ func runOne(rc *runCtx, w *world, idx int, logger *log.Logger) {
 			params.TimeToStartTx = k.startTx
 			defer func() { params.TimeToStartTx = 0 }()
 		}
+		if k := corpus[(idx-1000)%len(corpus)]; k.blocksPerMonth > 0 {
+			old := params.BlocksPerMonth
+			params.BlocksPerMonth = k.blocksPerMonth
+			defer func() { params.BlocksPerMonth = old }()
+		}
 	}
 	c, err := newChain(w, cfg, chainRng(rc.seed, idx), rc.rep, logger)
 	if err != nil {
@@ -113,7 +118,7 @@ func main() {
 			rc.blocks = cj.Blocks
 		}
 		m := cj.Mutant
-		if m == "honest-after-mutants" {
+		if m == "honest-after-mutants" || m == "honest-before-mutants" {
 			m = ""
 		}
 		rc.tgt = &target{chain: cj.Chain, block: cj.Block, mutant: m}
@@ -131,6 +136,6 @@ func main() {
 		}
 	}
 	cw.Close()
-	rep.Note("schedule scaled to a test network before any zone is created: TimeToStartTx=0 (1000 while the corpus chain startup-etx-count-rule runs), ControllerKickInBlock=0, CoinbaseLockupPrecompileKickInHeight=0, ConversionLockPeriod=2, LockupByteToBlockDepth={2,4,6,8}, CoinbaseEpochBlocks=4, TrimDepths=3..8")
+	rep.Note("schedule scaled to a test network before any zone is created: TimeToStartTx=0 (1000 while the corpus chain startup-etx-count-rule runs, 2 while tx-start-boundary runs; BlocksPerMonth=4 while gas-limit-ramp runs), ControllerKickInBlock=0, CoinbaseLockupPrecompileKickInHeight=0, ConversionLockPeriod=2, LockupByteToBlockDepth={2,4,6,8}, CoinbaseEpochBlocks=4, TrimDepths=3..8")
 	rep.Write(f.Out)
 }
